@@ -842,6 +842,10 @@ func stlGenWriterModel(r *fw.Rand) (stlModel, *astisub.Subtitles, string) {
 		if r.P(2, 3) {
 			j := []astisub.Justification{astisub.JustificationUnchanged, astisub.JustificationLeft, astisub.JustificationCentered, astisub.JustificationRight}[c.JC]
 			it.InlineStyle = &astisub.StyleAttributes{STLJustification: &j, STLPosition: &astisub.STLPosition{VerticalPosition: int(c.VP)}}
+			if r.Bool() {
+				// what reading an STL file leaves next to the justification, from before the cue was re-justified
+				it.InlineStyle.WebVTTAlign = fw.Pick(r, []string{"left", "right", "center"})
+			}
 		} else {
 			c.VP, c.JC = 255, 255 // not set by the model: the writer's choice is not compared
 		}
